@@ -2,7 +2,7 @@
 import json, os
 from . import common as C
 
-HOOK_COMMITS = ['54e1963']
+HOOK_COMMITS = ['54e1963', '7635428']
 
 CHECKS = {
     'C01': dict(cat='model_checking', ref='5/C01',
